@@ -176,8 +176,10 @@ package boltz
 //@ func (EntitySymbol).Eval
 //@   pure
 //@   ensures result0 == symFT(self, str(rowId)) && str(result1) == symBytes(self, str(rowId)) && (result1 == nil) == symBytesNil(self, str(rowId))
+//@ spec esName(sym Int) Str
 //@ func (EntitySymbol).GetName
 //@   pure
+//@   ensures[the-symbol's-name] result == esName(self)
 //@ spec symStoreOf(sym Int) Int
 //@ func (EntitySymbol).GetStore
 //@   pure
